@@ -27,6 +27,10 @@ def template_universe(draw):
         # every shape of recursion: single, double (fan-out per level), mutual, through an argument
         out["Loop"] = draw(st.sampled_from([out["Loop"] + "{{Loop}}{{T}}", "{{Loop}}{{Loop}}", "x{{Loop}}", "{{T2}}{{T2}}", "{{Loop|{{Loop}}}}",
                                             "{{Loop}}{{Loop}}{{Loop}}", out["Loop"]]))
+        if draw(st.integers(0, 5)) == 0:
+            # a loop through the <pages> tag: page T/1 transcludes the range that holds it
+            out["T/1"] = out["Loop"][:30] + '<pages index="T" from=1 to=2 />'
+            out["T/2"] = '<pages index=T from=1 to=2 /><pages index="T" from=2 to=2 />'
         if out["Loop"].startswith("{{T2}}"):
             out["T2"] = "{{Loop}}" + out.get("T2", "")[:20]
     if "Dbl" in out and draw(st.booleans()):
@@ -316,7 +320,7 @@ def drive(case, want_c05=True, want_c06=True):
         if nsig != sig:
             res["changed"].add(name)
             sig = nsig
-        v = validate(tree)
+        v = validate(tree) if want_c05 else None  # (C06 goes on: a malformed tree is C05's finding, what it does to later passes is C06's)
         if v:
             res["failures"].append(("C05", "after-%s:%s" % (name, v), "pass #%d" % idx))
             return res
@@ -343,7 +347,7 @@ def drive(case, want_c05=True, want_c06=True):
             if signature(tree)[0] != before:
                 res["failures"].append(("C06", "no-fixed-point:remove_breaking_returns", "second application changed the tree"))
                 return res
-    v = contract(tree)
+    v = contract(tree) if want_c05 else None
     if v:
         res["failures"].append(("C05", "contract:" + v, ""))
     return res
